@@ -419,6 +419,46 @@ def run(tier, seed):
                         break
                 os.chdir(scratch)
                 shutil.rmtree(root, ignore_errors=True)
+            # the same include STRING in two files of different directories names two different files (paths are relative to the
+            # including file): both are read, in either order of the include lines
+            for i in range(8 if quick else 100):
+                if len(res.violations) >= 5:
+                    break
+                root = os.path.join(scratch, "D%d" % i)
+                g1, g2, g3 = rng.sample(GATES, 3)
+                order_first = i % 2 == 0
+                incs = ['include "lib/chip.xbb"', 'include "util.xbb"']
+                files = {
+                    os.path.join(root, "util.xbb"): "name Prep\nversion 1.0\n\n%s(0.25, 0.0) | 1\n%s(0.5) | [0, 1]\n" % (g1, g2),
+                    os.path.join(root, "lib", "util.xbb"): "name Helper\nversion 1.0\n\n%s(0.75) | 0\n" % g3,
+                    os.path.join(root, "lib", "chip.xbb"): 'name Chip\nversion 1.0\ninclude "util.xbb"\n\nHelper | 1\n%s(0.125) | 0\n' % g1,
+                    os.path.join(root, "main.xbb"): "name main\nversion 1.0\n%s\n\nChip | [4, 5]\nPrep | [3, 2]\nVac | 0\n" % "\n".join(incs if order_first else incs[::-1]),
+                }
+                inlined = "name main\nversion 1.0\n\n%s(0.75) | 5\n%s(0.125) | 4\n%s(0.25, 0.0) | 2\n%s(0.5) | [3, 2]\nVac | 0\n" % (g3, g1, g1, g2)
+                write_files(files)
+                main_path = os.path.join(root, "main.xbb")
+                impl.reset_tables()
+                msg = None
+                try:
+                    os.chdir(rng.choice([root, scratch, os.path.join(root, "lib")]))
+                    p = blackbird.load(main_path)
+                    impl.reset_tables()
+                    if not close_digest(ops_digest(p), ops_digest(blackbird.loads(inlined))):
+                        msg = "two include lines spelt alike in different directories: calling the included programs differs from inlining them: %s" % (ops_digest(p)[-3:],)
+                except Exception as e:  # noqa: BLE001
+                    msg = "two include lines spelt alike in different directories: loading fails: %s: %s" % (type(e).__name__, str(e)[:100])
+                mo = observe.model_load(model, main_path, cwd=root, files=files)
+                if msg is None and mo["out"] == "ok":
+                    d = observe.cmp_prog(mo["v"], p, stats, lax_kind=True)
+                    if d:
+                        msg = "program differs from the model's inlining: " + "; ".join(d[:3])
+                res.case(files[main_path] + "same-spelling", True, None)
+                res.count("same-include-string-two-directories")
+                if msg:
+                    ok = False
+                    res.violate(msg, {"check": "include", "files": {k.replace(root, "<root>"): v for k, v in files.items()}, "main": "<root>/main.xbb", "inlined": inlined})
+                os.chdir(scratch)
+                shutil.rmtree(root, ignore_errors=True)
             # keyword arguments of an include call that are measured registers (or expressions over them)
             for i in range(25 if quick else 500):
                 if len(res.violations) >= 5:
